@@ -18,7 +18,7 @@ def run(ctx):
     ctx.tlc_must_pass("MC_Encoder", "MC_Encoder", timeout=900)
     ctx.tlc_must_pass("MC_Decoder", "MC_Decoder_q", timeout=900)
     fams = ["wellformed", "runs", "open", "converse", "reuse"]
-    r = enccheck.run_enc_traces(ctx, fams, 400 if quick else 8000, ["err", "mode"], want=("rt", "dec"))
+    r = enccheck.run_enc_traces(ctx, fams, 400 if quick else 40000, ["err", "mode"], want=("rt", "dec"))
     for kind, ds in r["diags"].items():
         for d in ds:
             fam = str(d.get("id")).split("/")[0]
